@@ -119,7 +119,7 @@ fn run(ctx: &mut Ctx) {
     let mut j = |ctx: &mut Ctx, c: Case| judge(ctx, c);
     workload::depth1(ctx, &pool, &mut j);
     workload::chains(ctx, &mut j);
-    let n = ctx.tier.of(400_000, 4_000_000);
+    let n = ctx.tier.of(400_000, 15_000_000);
     workload::random(ctx, &pool, n, ctx.tier.of(4, 6), &mut j);
     text_route(ctx, ctx.tier.of(4_000, 40_000));
 }
